@@ -46,7 +46,7 @@ seq_t dtw_distance{{ suffix }}{{ suffix2 }}(seq_t *s1, idx_t l1,
     idx_t dl;
     // DTWPruned
     idx_t sc = 0;
-    idx_t ec = 0;
+    idx_t ec = settings->psi_2b;
     bool smaller_found;
     idx_t ec_next;
     // signal(SIGINT, dtw_int_handler); // not compatible with OMP
@@ -177,6 +177,10 @@ seq_t dtw_distance{{ suffix }}{{ suffix2 }}(seq_t *s1, idx_t l1,
         // }
         skip = skip * (length != l2 + 1);
         // PrunedDTW
+        if (i <= settings->psi_1b) {
+            // rows that can start for free in the first column are scanned from that column
+            sc = 0;
+        }
         if (sc > maxj) {
             #ifdef DTWDEBUG
             printf("correct maxj to sc: %zu -> %zu (saved %zu computations)\n", maxj, sc, sc-maxj);
